@@ -33,6 +33,15 @@ def main():
                 m = importlib.import_module('props.' + f[:-3])
                 if getattr(m, 'READY', True) and hasattr(m, 'harness_specs'):
                     specs += m.harness_specs('quick')
+        # the kind-matrix slices that the checks of the owning properties include (generated + compiled by slice_for)
+        try:
+            import random
+            c09 = importlib.import_module('props.c09')
+            for pid_, ops in c09.OPS_BY_PROPERTY.items():
+                sp, _ = c09.slice_for(ops, 'quick', random.Random(seed), refused_only=(pid_ == 'C15'))
+                specs += list(sp)
+        except Exception as e:
+            print('kind-matrix slices not warmed:', e)
         uniq = {s['name']: s for s in specs}
         res = runner.harness_build_many(list(uniq.values()))
         bad = [n for n, (b, l) in res.items() if b is None]
